@@ -20,7 +20,7 @@ use simcore::{
     stats,
     tape::{self, Stream},
 };
-use utils::Serializable;
+use utils::{Randomizable, Serializable};
 
 use crate::genair::{build_aux_columns, GenAir, GenInputs, GenTrace, Knobs, Spec};
 
@@ -75,6 +75,52 @@ fn log(e: CoinEvent) {
 /// recorded history the oracles inspect, and what a Byzantine prover learns the challenges from.
 pub struct RecordingCoin<H: ElementHasher> {
     inner: DefaultRandomCoin<H>,
+    /// replica of the coin state built from hasher primitives, kept in step with `inner`; only
+    /// consulted by the Byzantine prover of C05 (see [set_lenient_integer_draws])
+    shadow: Shadow<H>,
+}
+
+/// the documented coin derivation from hasher primitives (same as C20's reference coin)
+struct Shadow<H: ElementHasher> {
+    seed: H::Digest,
+    counter: u64,
+}
+
+impl<H: ElementHasher> Shadow<H> {
+    fn next(&mut self) -> H::Digest {
+        self.counter += 1;
+        H::merge_with_int(self.seed, self.counter)
+    }
+    fn draw<E: FieldElement>(&mut self) {
+        for _ in 0..1000 {
+            let d = self.next();
+            if E::from_random_bytes(&d.as_bytes()[..E::ELEMENT_BYTES]).is_some() {
+                return;
+            }
+        }
+    }
+    fn draw_integers(&mut self, n: usize, domain: usize, nonce: u64) -> Vec<usize> {
+        self.seed = H::merge_with_int(self.seed, nonce);
+        self.counter = 0;
+        let mask = (domain - 1) as u64;
+        (0..n)
+            .map(|_| {
+                let d = self.next().as_bytes();
+                (u64::from_le_bytes(d[..8].try_into().unwrap()) & mask) as usize
+            })
+            .collect()
+    }
+}
+
+thread_local! {
+    static LENIENT_INTS: RefCell<bool> = const { RefCell::new(false) };
+}
+
+/// A Byzantine prover is not bound by the library coin's preconditions: with this switch on, the
+/// PROVER's coin answers `draw_integers(n, domain)` with n >= domain (where the library coin
+/// panics) from its replica of the transcript. The verifier's coin is never lenient.
+pub fn set_lenient_integer_draws(on: bool) {
+    LENIENT_INTS.with(|c| *c.borrow_mut() = on);
 }
 
 impl<B: StarkField, H: ElementHasher<BaseField = B>> RandomCoin for RecordingCoin<H> {
@@ -87,10 +133,12 @@ impl<B: StarkField, H: ElementHasher<BaseField = B>> RandomCoin for RecordingCoi
             e.write_into(&mut bytes);
         }
         log(CoinEvent::New(bytes));
-        RecordingCoin { inner: DefaultRandomCoin::new(seed) }
+        RecordingCoin { inner: DefaultRandomCoin::new(seed), shadow: Shadow { seed: H::hash_elements(seed), counter: 0 } }
     }
     fn reseed(&mut self, data: H::Digest) {
         log(CoinEvent::Reseed(data.as_bytes().to_vec()));
+        self.shadow.seed = H::merge(&[self.shadow.seed, data]);
+        self.shadow.counter = 0;
         self.inner.reseed(data)
     }
     fn check_leading_zeros(&self, value: u64) -> u32 {
@@ -99,13 +147,21 @@ impl<B: StarkField, H: ElementHasher<BaseField = B>> RandomCoin for RecordingCoi
     }
     fn draw<E: FieldElement<BaseField = B>>(&mut self) -> Result<E, RandomCoinError> {
         let r = self.inner.draw::<E>();
+        self.shadow.draw::<E>();
         if let Ok(e) = &r {
             log(CoinEvent::Draw(E::EXTENSION_DEGREE, e.to_bytes()));
         }
         r
     }
     fn draw_integers(&mut self, num_values: usize, domain_size: usize, nonce: u64) -> Result<Vec<usize>, RandomCoinError> {
+        let lenient = LENIENT_INTS.with(|c| *c.borrow()) && ROLE.with(|c| *c.borrow()) == PROVER;
+        if lenient && num_values >= domain_size && domain_size.is_power_of_two() {
+            let v = self.shadow.draw_integers(num_values, domain_size, nonce);
+            log(CoinEvent::DrawInts(num_values, domain_size, nonce, v.clone()));
+            return Ok(v);
+        }
         let r = self.inner.draw_integers(num_values, domain_size, nonce);
+        let _ = self.shadow.draw_integers(num_values, domain_size, nonce);
         if let Ok(v) = &r {
             log(CoinEvent::DrawInts(num_values, domain_size, nonce, v.clone()));
         }
